@@ -31,6 +31,7 @@ class Run:
         self.leaf = None
         self.unbindable = None
         self.prev_tu_len = 1
+        self.prev_tu_raw = None
         self.prev_te_len = 0
         self.prev_nerr = 0
         self.last_unwrap = None
@@ -86,7 +87,22 @@ class Run:
         tu, te = self.q_tu(f["tu"]), self.q_te(f["te"])
         nerr = len(f["errs"])
         ev = {"act": name, "tu": tu, "te": te, "loops": f["loops"], "nerr": nerr,
-              "r": {"k": "none", "xs": []}, "cf": 0}
+              "r": {"k": "none", "xs": []}, "cf": 0, "own": False}
+        if name == "PopFrame":
+            # ground truth for the origin rule: was the popped frame the OWN frame of the object queued as its origin?
+            # (the pre-state of this action is the post-state logged by the previous event; before the first event the
+            # queue holds the root with itself as candidate origin)
+            if self.prev_tu_raw:
+                head = self.prev_tu_raw[0]
+            elif not self.events:
+                head = (self.root_obj, self.root_obj, 0)
+            else:
+                head = None
+            if head is not None:
+                org, item = head[0], head[1]
+                fr = item.pyframe if isinstance(item, stackscope.Frame) else item
+                ev["own"] = any(getattr(org, a, None) is fr for a in ("gi_frame", "cr_frame", "ag_frame")) and fr is not None
+        self.prev_tu_raw = list(f["tu"])
         if name == "Unwrap":
             lu = self.last_unwrap
             self.last_unwrap = None
